@@ -43,6 +43,9 @@ DESIGNED = [
     # a series of blocks of the caller's whose carriers differ between the orders: arrays up to first order, legacy sparse matrices from second order on
     {"hermitian": True, "sizes": [2, 2], "E": [1, 3, 7, 10],
      "variant": {"carrier": "legacy-high-orders", "designation": "blockseries-blocked", "container": "dict", "int_h0": False, "scale_exp": 0}},
+    # nested block lists of the caller's holding legacy sparse matrices: the lists and their entries come back as they were (identity, type, contents)
+    {"hermitian": True, "sizes": [2, 3], "E": [2, 5, 9, 11, 14],
+     "variant": {"carrier": "spmatrix", "designation": "blocked", "container": "dict", "int_h0": False, "scale_exp": 0}},
     {"hermitian": True, "sizes": [2, 2], "E": [0, 0, 2, 5], "fd_tuple": [0]},                        # an identically zero H_0 block, fully diagonalised
     {"hermitian": False, "sizes": [2, 1, 2], "E": [0, 0, 3, 7, 7], "fd_tuple": [0, 2]},              # a zero block and a degenerate one, both fully diagonalised
     {"hermitian": True, "sizes": [2, 2], "E": [1, 3, 0, 0], "variant": {"carrier": "dense", "designation": "indices", "container": "dict", "int_h0": False, "scale_exp": 0}},                                         # an identically zero H_0 block that is not the first one, equal block sizes
